@@ -60,10 +60,13 @@ func (e *executor[R]) Apply(innerFn func(failsafe.Execution[R]) *common.PolicyRe
 				case <-timer.C:
 				case result = <-resultChan:
 					timer.Stop()
+				case <-exec.Canceled():
+					timer.Stop()
 				}
 			} else {
 				select {
 				case result = <-resultChan:
+				case <-exec.Canceled():
 				}
 			}
 
